@@ -23,9 +23,9 @@ func C09(r *core.Run) {
 		"(R09.1n) nilable fields (GoFakeS3.versioned, bucketObject.versions/data, iterator fields) are dereferenced only where established non-nil on every path; " +
 		"(R09.1t) unchecked type assertions only on homogeneous skiplist classes; (R09.1p) explicit panics are in the reviewed table; (R09.1a) request-sized allocations are bounded; " +
 		"(R09.2) every route switch has a default arm returning an S3 error and routeBase ends in NotFound; (R02.4) error funnel and status table; " +
-		"(R09.4) locks released by explicit unlock protect only code with no undischarged obligation; (R09.6) each middleware answers or calls next exactly once; (R09.7) no blocking primitive in handler-reachable code."
+		"(R09.4) locks released by explicit unlock protect only code with no undischarged obligation; (R09.6) each middleware answers or calls next exactly once; (R09.7) no blocking primitive in handler-reachable code; (R09.8) bolt transactions are closure-scoped (View/Update), never opened with Begin."
 	r.NotDecided = "panics inside dependencies (bbolt, afero, encoding/xml) on hostile data, nil results of backend calls and map lookups (heap invariants), memory exhaustion, slow-client hangs, non-terminating loops, the post-request canary"
-	r.TrustedBase = append(r.TrustedBase, "gc's prove pass (completeness of the bounds-obligation list)", "library post-condition table (strings.Split*, strings.Index*, HasPrefix/HasSuffix, io.Reader.Read)", "reviewed discharge table in rules/c09.go")
+	r.TrustedBase = append(r.TrustedBase, "gc's prove pass (completeness of the bounds-obligation list)", "library post-condition table (strings.Split*, strings.Index*, HasPrefix/HasSuffix, io.Reader.Read, sort.Slice comparator indices)", "reviewed discharge table in rules/c09.go")
 	reach := reachableFrom(r, handlerRoots(r))
 	r.Extra["handler_reachable_functions"] = len(reach)
 	ctx := oblig.NewCtx(r.P)
